@@ -42,7 +42,8 @@ inductive Expr where
   | paren (e : Expr)                 -- `(e)`
   | union (l r : Expr)               -- `l | r`
   | count (e : Expr)                 -- `count(e)`
-  | num (k : Nat)                    -- integer literal
+  | num (k : Nat)                    -- integer literal (`0`, `00`, `3`, `100000000000000000000`)
+  | lit (neg : Bool) (tenths : Nat)  -- other numeric literals: `-1`, `1.5`, `0.0`, `2.0` = ± tenths/10
   | position                         -- `position()`
   | last                             -- `last()`
   | cmp (op : Cmp) (l r : Expr)
@@ -61,6 +62,7 @@ structure Focus where
 inductive Val where
   | nodes (l : List Nat)
   | num (k : Nat)
+  | dec (neg : Bool) (tenths : Nat)   -- ± tenths/10 (negative / non-integral literals)
   | bool (b : Bool)
   | err                              -- XPTY0019 / XPTY0004: outside the typed fragment
   deriving Repr, DecidableEq, Inhabited
@@ -176,12 +178,14 @@ def ebv : Val → Option Bool
   | .nodes l => some (!l.isEmpty)
   | .bool b => some b
   | .num k => some (k != 0)
+  | .dec _ t => some (t != 0)
   | .err => none
 
 /-- truth of a predicate value for the focus: a single number is compared with the position -/
 def keep (v : Val) (f : Focus) : Option Bool :=
   match v with
   | .num k => some (f.pos == k)
+  | .dec neg t => some (!neg && f.pos * 10 == t)      -- `context.position == predicate[0]`
   | v => ebv v
 
 /-- filter the focus sequence by the flags; `none` (error in some predicate evaluation) ⇒ `err` -/
@@ -254,6 +258,7 @@ def eval (m : Mode) (a : Arr) : Expr → Focus → Val
     | .nodes l => .num l.length
     | _ => .err
   | .num k, _ => .num k
+  | .lit neg t, _ => .dec neg t
   | .position, f => .num f.pos
   | .last, f => .num f.size
   | .cmp op l r, f =>
@@ -278,7 +283,7 @@ def eval (m : Mode) (a : Arr) : Expr → Focus → Val
 /-! ### typing of the fragment and the trigger predicate of the known findings -/
 
 inductive Ty where
-  | path | num | bool
+  | path | num | bool | dec
   deriving DecidableEq, Repr
 
 /-- the typed fragment: `ty e = some t` — path-valued operands of `/`, `//`, `[ ]`; numbers only
@@ -307,6 +312,7 @@ def ty : Expr → Option Ty
     | some .path => some .num
     | _ => none
   | .num _ | .position | .last => some .num
+  | .lit _ _ => some .dec
   | .cmp _ l r =>
     match ty l, ty r with
     | some .num, some .num => some .bool
